@@ -153,6 +153,7 @@ func c19(c *Ctx) {
 	}
 	// ---- (2) the model's matcher vs git check-attr
 	c19Matcher(c, r)
+	c19Sequences(c, r.Fork())
 	// ---- (3) the real commands
 	n3 := c.N(160, 6000)
 	var wg sync.WaitGroup
@@ -165,6 +166,23 @@ func c19(c *Ctx) {
 			defer wg.Done()
 			defer func() { <-sem }()
 			c19Scenario(c, i, rs)
+		}(i, rs)
+	}
+	wg.Wait()
+}
+
+func c19Sequences(c *Ctx, r *Rng) {
+	n := c.N(60, 1200)
+	var wg sync.WaitGroup
+	sem := make(chan struct{}, 10)
+	for i := 0; i < n; i++ {
+		rs := r.Fork()
+		wg.Add(1)
+		sem <- struct{}{}
+		go func(i int, rs *Rng) {
+			defer wg.Done()
+			defer func() { <-sem }()
+			c19Sequence(c, i, rs)
 		}(i, rs)
 	}
 	wg.Wait()
@@ -363,6 +381,109 @@ func c19Scenario(c *Ctx, i int, r *Rng) {
 	}
 	if i%40 == 0 {
 		c.R.Sample(map[string]interface{}{"filename": filename, "arg": arg, "sub": sub, "pre_existing": pre, "written": string(attrs1)})
+	}
+}
+
+// c19Sequence: several track / untrack / lockable operations over RELATED patterns (rooted and
+// unrooted spellings of one name, an extension glob, a directory-qualified name).  After every step
+// Git's attribute lookup must equal the lookup in a scratch repository whose .gitattributes holds
+// the same patterns written by hand in Git's quoted-pattern syntax.
+func c19Sequence(c *Ctx, i int, r *Rng) {
+	dir := filepath.Join(c.Work, fmt.Sprintf("c19s-%d", i))
+	spec := filepath.Join(c.Work, fmt.Sprintf("c19s-%d-spec", i))
+	defer os.RemoveAll(dir)
+	defer os.RemoveAll(spec)
+	if gitInit(dir) != nil || gitInit(spec) != nil {
+		return
+	}
+	cfgFile := filepath.Join(c.Work, fmt.Sprintf("c19s-%d.gitconfig", i))
+	defer os.Remove(cfgFile)
+	os.WriteFile(cfgFile, []byte("[user]\n\tname = v\n\temail = v@example.invalid\n"), 0o644)
+	env := []string{"GIT_CONFIG_GLOBAL=" + cfgFile, "GIT_LFS_TRACK_NO_INSTALL_HOOKS=1", "PATH=" + filepath.Dir(c.Lfs) + ":" + os.Getenv("PATH")}
+	pre := Pick(r, []string{"", "# comment\n*.txt text\n", "*.txt text"})
+	if pre != "" {
+		os.WriteFile(filepath.Join(dir, ".gitattributes"), []byte(pre), 0o644)
+	}
+	pats := []string{"/data.bin", "data.bin", "*.bin", "sub/data.bin", "/sub/data.bin", "sub/*.bin", "other.bin", "/other.bin"}
+	probes := []string{"data.bin", "sub/data.bin", "sub/deep/data.bin", "other.bin", "sub/other.bin", "deep/sub/data.bin", "x.txt", "sub/x.txt"}
+	type st struct{ lockable bool }
+	active := map[string]*st{}
+	var order []string
+	var steps []string
+	n := 2 + r.Intn(4)
+	for k := 0; k < n; k++ {
+		p := Pick(r, pats)
+		var args []string
+		switch r.Intn(6) {
+		case 0:
+			args = []string{"untrack", p}
+			if _, ok := active[p]; ok {
+				delete(active, p)
+				for j, o := range order {
+					if o == p {
+						order = append(order[:j], order[j+1:]...)
+						break
+					}
+				}
+			}
+		case 1:
+			args = []string{"track", "--lockable", p}
+			if a, ok := active[p]; ok {
+				a.lockable = true
+			} else {
+				active[p] = &st{true}
+				order = append(order, p)
+			}
+		case 2:
+			args = []string{"track", "--not-lockable", p}
+			if a, ok := active[p]; ok {
+				a.lockable = false
+			} else {
+				active[p] = &st{false}
+				order = append(order, p)
+			}
+		default:
+			args = []string{"track", p}
+			if _, ok := active[p]; !ok {
+				active[p] = &st{false}
+				order = append(order, p)
+			}
+		}
+		out, code := runIn(dir, env, c.Lfs, args...)
+		steps = append(steps, strings.Join(args, " "))
+		enc := fmt.Sprintf("C19 seq pre=%s steps=%s", hx([]byte(pre)), strings.Join(steps, " ; "))
+		c.R.Count("seq.step")
+		if code != 0 {
+			c.R.Add(Finding{Kind: "oracle", What: "`git lfs " + args[0] + "` failed on a plain pattern", Case: enc, Impl: clip(out, 200)})
+			return
+		}
+		// the hand-written equivalent
+		var sb strings.Builder
+		sb.WriteString(pre)
+		if pre != "" && !strings.HasSuffix(pre, "\n") {
+			sb.WriteString("\n")
+		}
+		for _, o := range order {
+			sb.WriteString("\"" + o + "\" filter=lfs diff=lfs merge=lfs -text")
+			if active[o].lockable {
+				sb.WriteString(" lockable")
+			}
+			sb.WriteString("\n")
+		}
+		os.WriteFile(filepath.Join(spec, ".gitattributes"), []byte(sb.String()), 0o644)
+		for _, attr := range []string{"filter", "lockable", "text"} {
+			want := checkAttrOf(spec, attr, probes)
+			got := checkAttrOf(dir, attr, probes)
+			for _, q := range probes {
+				if want[q] != got[q] {
+					written, _ := os.ReadFile(filepath.Join(dir, ".gitattributes"))
+					c.R.Add(Finding{Kind: "oracle", What: "after a sequence of track/untrack operations Git's attribute lookup differs from what the requested patterns denote", Case: enc,
+						Impl: fmt.Sprintf("%s of %q: got %q want %q | written=%q | %s", attr, q, got[q], want[q], string(written), strings.TrimSpace(out))})
+					return
+				}
+			}
+		}
+		c.R.Eval(enc, true)
 	}
 }
 
